@@ -264,11 +264,19 @@ CHECKS = [
              "stochastic_logdet_from_lanczos integrates the monomials x^0..x^3 exactly for ALL positive definite 2x2 tridiagonals "
              "(Gauss quadrature exact at order = dimension).",
      "design_ref": "DESIGN.md 4/C34"},
+    {"property_id": "C08", "engine": "A", "category": "other", "technique": TECH_A + "; the float coercions of the domain constructors are redirected to the engine's reals so that grid distances and bin bounds stay symbolic, comparisons inside searchsorted / unique are path decisions; identity clauses by history exploration (choices = z3 integers)",
+     "note": NOTE_A + " Bounds: 1-D grids up to 7 pixels, 2-D up to 3x4, 2-3 symbolic bin bounds. Unique k-lengths of multi-dimensional grids with unequal distances, LM/GL/HP geometry and the bin-bound helper functions are outside the claim.",
+     "text": "Bounded symbolic verification: for ALL grid distances RGSpace volumes, extents, codomain distances and the k-length table "
+             "are self-consistent, the 1-D unique k-lengths are strictly increasing and exactly the values of the table; for ALL "
+             "distances and bin bounds a PowerSpace assigns every pixel to the bin its k-length falls into, refuses empty bins, and its "
+             "bin volumes / bin k-lengths are the sums / averages over the member pixels; equal domain descriptions give the identical "
+             "DomainTuple / MultiDomain object, also after pickling and for any key order.",
+     "design_ref": "DESIGN.md 4/C08"},
 ]
 
 ALL = [f"C{i:02d}" for i in range(1, 37)]
 REASONS = {
-    "C08": "the domain classes coerce every geometry parameter to float64 NumPy arrays in their constructors and compute k-lengths, bins and volumes with arange / searchsorted / bincount / unique on those arrays: no symbolic input survives construction, so a solver would only re-evaluate concrete numbers; the cache-identity and pickling half of the property is object identity of concrete runs, which is decided by executing, not by a solver (volume-weighted contractions on these domains are covered by C06, harmonic volume factors by C09)",
+    "C08_unused": "the domain classes coerce every geometry parameter to float64 NumPy arrays in their constructors and compute k-lengths, bins and volumes with arange / searchsorted / bincount / unique on those arrays: no symbolic input survives construction, so a solver would only re-evaluate concrete numbers; the cache-identity and pickling half of the property is object identity of concrete runs, which is decided by executing, not by a solver (volume-weighted contractions on these domains are covered by C06, harmonic volume factors by C09)",
     "C27": "quantifies over end-to-end configurations of whole VI runs (sampling, CG, plotting, HDF5, pickling); nothing in it is an input a solver could make symbolic and the run itself cannot be encoded",
     "C28": "equality of two deep transcendental pipelines (ducc Hartley transforms on grids >= 4, cumulative sums of exp/log/sqrt, special functions) and an expectation over the whole pipeline: outside NRA+UF reach",
 }
